@@ -41,6 +41,11 @@ RULE = ("(a) operation sequences on ONE long-lived accountant (spends, slack mov
         "was passed to the constructor (append/clear/item assignment/del/extend/re-use for a second accountant that then "
         "spends); after EVERY step total() = KOV(ctor-given spends + successful spend() calls, slack) to 1e-9 and >= KOV(1-1e-12), "
         "total never decreases, len = number of accepted spends, and the Lean model (C04: refused => unchanged) agrees; "
+        "(a3) numeric types: spends, slack and delta ceiling given as np.float32/float16/float64/longdouble/int/np.int64/"
+        "np.int32 (quantised first, so the 60-digit reference is computed from the same real numbers), through both entry "
+        "points (total(spent_budget=, slack=) and constructor+spend() then total()), in the regimes where narrow accumulation "
+        "shows (one large spend then many small ones, many equal spends, small deltas): both within 1e-9 of KOV, >= KOV(1-1e-12), "
+        "and agreeing with each other and with the Lean model on the quantised doubles; "
         "(b) (spends, slack) pairs generated from the seed: 0..200 spends, eps log-uniform in [1e-12,1e3] in several styles "
         "(homogeneous small, mixed, wide, tiny, large, boundary values, eps=0 with delta>0), delta in [0,1] incl. 0, tiny, 1, "
         "slack in [0,1] incl. 0, denormal, tiny, near 1 and 1; each is evaluated by the real total(spent_budget=, slack=) "
@@ -943,6 +948,143 @@ def ledger_stream(ctx):
     ctx.count("ledger_ops_compared", len(all_lines))
 
 
+# ---------------------------------------------------------------- numeric-type dimension
+
+WRAPS = {
+    "f32": lambda v: np.float32(v), "f16": lambda v: np.float16(v), "f64": lambda v: np.float64(v),
+    "ld": lambda v: np.longdouble(v), "pyint": lambda v: int(v), "npint": lambda v: np.int64(int(v)),
+    "npint32": lambda v: np.int32(int(v)),
+}
+FLOAT_WRAPS = ["f32", "f32", "f32", "f16", "f64", "ld"]
+INT_WRAPS = ["pyint", "npint", "npint32"]
+
+
+def q_of(wrap, v):
+    """the real number (as a double) that `v` becomes when given in the wrap's type"""
+    with np.errstate(all="ignore"):
+        if wrap == "f32":
+            return float(np.float32(v))
+        if wrap == "f16":
+            return float(np.float16(v))
+        if wrap in INT_WRAPS:
+            return float(int(v))
+    return float(v)
+
+
+def quantise_list(wrap, spends, slack):
+    """spends and slack rounded to numbers the type represents exactly, invalid (0, 0) pairs and overflows dropped"""
+    out = []
+    for e, d in spends:
+        e, d = q_of(wrap, e), q_of(wrap, d)
+        if math.isinf(e) or not (0 <= d <= 1) or (e == 0 and d == 0):
+            continue
+        out.append((e, d))
+    return out, q_of(wrap, slack)
+
+
+def gen_typed(r):
+    """(wrap, spends, slack, split): regimes where accumulation in a narrow type would show"""
+    if r.chance(0.2):
+        wrap = r.choice(INT_WRAPS)
+        m = r.u01()
+        n = r.randint(2, 200)
+        if m < 0.4:
+            spends = [(1000, 0)] + [(1, 0)] * (n - 1)
+        elif m < 0.7:
+            spends = [(r.randint(1, 40), 0) for _ in range(n)]
+        else:
+            spends = [(r.randint(0, 3), r.choice([0, 0, 0, 1])) for _ in range(n)]
+        slack = r.choice([0, 0, 0, 1])
+    else:
+        wrap = r.choice(FLOAT_WRAPS)
+        m = r.u01()
+        n = r.randint(20, 200)
+        if m < 0.3:                                   # one large spend followed by many small ones
+            big = r.choice([1000.0, 100.0, 512.0, r.loguniform(10, 1e3)])
+            sm = r.choice([1e-5, 1e-4, 1e-3, r.loguniform(1e-6, 1e-2)])
+            spends = [(big, 0.0)] + [(sm, r.choice([1e-9, 0.0, 1e-7]))] * (n - 1)
+            if r.chance(0.3):
+                r.shuffle(spends)
+        elif m < 0.6:                                 # many equal spends
+            e = r.choice([0.1, 0.05, 0.3, 1.0, r.loguniform(1e-3, 2.0)])
+            spends = [(e, r.choice([1e-9, 1e-7, 0.0, 1e-5]))] * n
+        elif m < 0.75:                                # small deltas
+            dl = r.choice([1e-7, 1e-6, 6e-8, 1e-9, r.loguniform(1e-9, 1e-4)])
+            spends = [(r.choice([0.0, 0.01, 0.5]), dl) for _ in range(n)]
+        else:
+            spends, _, _ = gen_case(r)
+        slack = r.choice([0.0, 0.0, 1e-6, 1e-3, 1e-2, 0.25, r.loguniform(1e-7, 0.5)])
+    spends, slack = quantise_list(wrap, spends, slack)
+    return wrap, spends, slack, r.randint(0, len(spends))
+
+
+TYPED_FIXED = [
+    ("f32", [(1000.0, 0.0)] + [(1e-5, 1e-9)] * 199, 0.0, 100), ("f32", [(0.1, 1e-9)] * 200, 0.0, 0),
+    ("f32", [(0.1, 1e-9)] * 200, 1e-6, 200), ("f16", [(512.0, 0.0)] + [(0.01, 1e-7)] * 150, 1e-3, 10),
+    ("pyint", [(1000, 0)] + [(1, 0)] * 100, 0, 50), ("npint32", [(3, 0), (0, 1), (2, 0)], 1, 1), ("ld", [(0.1, 1e-9)] * 50, 0.25, 25),
+]
+
+
+def check_typed(wrap, spends, slack, split):
+    """both entry points with every number given in the wrap's type.  Returns (None | (signature, what), (te, td))"""
+    W = WRAPS[wrap]
+    typed = [(W(e), W(d)) for e, d in spends]
+    ref = kov_ref(spends, slack)
+    with warnings.catch_warnings():
+        warnings.simplefilter("ignore")
+        with np.errstate(all="ignore"):
+            t = acc().total(spent_budget=list(typed), slack=W(slack))
+            pure = (float(t[0]), float(t[1]))
+            a = dp.BudgetAccountant(float("inf"), W(1), W(slack), spent_budget=list(typed[:split]))
+            for e, d in typed[split:]:
+                a.spend(e, d)
+            t = a.total()
+            rec = (float(t[0]), float(t[1]))
+            n, sb = len(a), [(float(e), float(d)) for e, d in a.spent_budget]
+    desc = f"{len(spends)} spends {_short(spends)} and slack {slack!r}, every number given as {wrap}"
+    for name, (te, td) in (("total(spent_budget=, slack=)", pure), (f"constructor({split})+spend() then total()", rec)):
+        bad, _ = judge_kov(te, td, spends, slack, ref)
+        if bad:
+            sig = bad[0] if bad[0] == SIG_CANCEL else "C05:numeric-type:" + ("pure" if name.startswith("total(") else "recorded")
+            return (sig, f"{desc}: {name}: {bad[1]}"), pure
+    if n != len(spends) or sb != [(float(e), float(d)) for e, d in spends]:
+        return ("C05:numeric-type:recorded-values", f"{desc}: spent_budget/len after recording do not hold the numbers given"), pure
+    if not (gen.rel_close(pure[0], rec[0], 1e-12) and gen.rel_close(pure[1], rec[1], 1e-12)):
+        return ("C05:numeric-type:entry-points-disagree", f"{desc}: total(spent_budget=…) = {pure} but recording the same list "
+                                                          f"gives total() = {rec}"), pure
+    return None, pure
+
+
+def typed_stream(ctx):
+    r = ctx.fork("typed")
+    items = list(TYPED_FIXED) + [gen_typed(r) for _ in range(ctx.budget(150, 2500))]
+    items = [(w, *quantise_list(w, sp, sl), k) for w, sp, sl, k in items]
+    lines, impl = [], []
+    for wrap, spends, slack, split in items:
+        split = min(split, len(spends))
+        bad, (te, td) = check_typed(wrap, spends, slack, split)
+        if bad:
+            ctx.violation(bad[0], bad[1], {"kind": "typed", "wrap": wrap, "spends": spends, "slack": slack, "split": split})
+        ctx.case(("typed", wrap, f2b(slack), hash(tuple(spends))) if len(spends) >= 2 and wrap != "f64" else None)
+        ctx.count("typed_" + wrap)
+        impl.append((te, td))
+        flat = []
+        for e, d in spends:
+            flat += [f2b(e), f2b(d)]
+        lines.append("totalcore " + " ".join(str(x) for x in [f2b(slack)] + flat))
+    ctx.sample({"numeric_type": items[1][0], "n_spends": len(items[1][1]), "first_spend": items[1][1][0], "slack": items[1][2],
+                "impl_total": impl[1], "kov_60_digits": str(kov_ref(items[1][1], items[1][2])[0])[:25]})
+    if ctx.searching and ctx.violations:
+        return
+    outs = leanio.run_driver("Accountant", lines)
+    for (wrap, spends, slack, split), (te, td), out in zip(items, impl, outs):
+        if _cmp_totalcore(spends, slack, te, td, out):
+            ctx.trace_ok()
+        else:
+            ctx.disagree("accountant.total.typed", {"wrap": wrap, "spends": spends, "slack": slack}, out, [te, td])
+    ctx.count("typed_totals_compared", len(lines))
+
+
 # ---------------------------------------------------------------- entry points
 
 def check(ctx):
@@ -953,6 +1095,9 @@ def check(ctx):
     if ctx.searching and ctx.violations:
         return
     ledger_stream(ctx)
+    if ctx.searching and ctx.violations:
+        return
+    typed_stream(ctx)
     if ctx.searching and ctx.violations:
         return
     r = ctx.fork("cases")
@@ -997,6 +1142,9 @@ def replay(ctx, data):
         seq = fix(d["seq"])
         _, viol = run_live((float(seq[0]), float(seq[1]), float(seq[2]), seq[3]))
         return viol is not None
+    if d["kind"] == "typed":
+        sp = [(float(u(e)), float(u(x))) for e, x in d["spends"]]
+        return check_typed(d["wrap"], sp, float(u(d["slack"])), int(d["split"]))[0] is not None
     if d["kind"] == "ledger":
         def fixl(x):
             return [fixl(y) for y in x] if isinstance(x, list) else u(x)
